@@ -170,6 +170,8 @@ type TB struct {
 	cells    map[*ssa.Alloc]*cellInfo
 	ReadOnly func(callee string) bool // external callees that do not write through pointer/slice args
 	curLoad  ssa.Instruction          // the load being resolved (for strong updates by dominating stores)
+	// WritesParam, when set (by NewEffects), tells whether a module callee may write through its i-th parameter.
+	WritesParam func(callee *ssa.Function, i int) bool
 }
 
 func NewTB(w *World) *TB {
@@ -711,12 +713,27 @@ func (tb *TB) cell(a *ssa.Alloc) *cellInfo {
 						tb.closureStores(ci, fn.FreeVars[i], path)
 					}
 				}
+			case *ssa.MakeInterface:
+				// the address boxed into an interface (json.Unmarshal(data, &v)): follow it into calls
+				visit(in, path)
+				if rr := in.Referrers(); rr != nil {
+					for _, u := range *rr {
+						if _, isCall := u.(ssa.CallInstruction); !isCall {
+							if _, isDbg := u.(*ssa.DebugRef); !isDbg {
+								ci.escaped = true
+							}
+						}
+					}
+				}
 			case ssa.CallInstruction:
 				cc := in.Common()
 				name := CalleeName(cc)
 				for i, arg := range cc.Args {
 					if arg == addr {
 						if name != "" && tb.ReadOnly(name) {
+							continue
+						}
+						if cal := cc.StaticCallee(); cal != nil && tb.W.InModule(cal) && tb.WritesParam != nil && !tb.WritesParam(cal, i) {
 							continue
 						}
 						if name == "" {
@@ -728,7 +745,7 @@ func (tb *TB) cell(a *ssa.Alloc) *cellInfo {
 				if cc.IsInvoke() && cc.Value == addr {
 					ci.stores = append(ci.stores, storeRec{path: append([]string(nil), path...), ext: CalleeName(cc) + "#recv", in: in})
 				}
-			case *ssa.Return, *ssa.Phi, *ssa.MakeInterface, *ssa.ChangeType, *ssa.Convert, *ssa.MapUpdate, *ssa.Send:
+			case *ssa.Return, *ssa.Phi, *ssa.ChangeType, *ssa.Convert, *ssa.MapUpdate, *ssa.Send:
 				ci.escaped = true
 			case *ssa.DebugRef:
 			default:
@@ -755,6 +772,17 @@ func (tb *TB) sliceEscapes(ci *cellInfo, s *ssa.Slice, path []string) {
 			}
 			if (name == "builtin.append" || name == "builtin.copy") && len(cc.Args) == 2 && cc.Args[1] == ssa.Value(s) && cc.Args[0] != ssa.Value(s) {
 				continue // only read as the source
+			}
+			if cal := cc.StaticCallee(); cal != nil && tb.W.InModule(cal) && tb.WritesParam != nil {
+				writes := false
+				for i, a := range cc.Args {
+					if a == ssa.Value(s) && tb.WritesParam(cal, i) {
+						writes = true
+					}
+				}
+				if !writes {
+					continue
+				}
 			}
 			if name == "" {
 				name = "dynamic"
